@@ -24,7 +24,7 @@ CFG = {
             "params fork maps": "gen (value dump of package params)",
             "(*ChainConfig).GetBlockVersion": "corr (vs Model.getBlockVersion over generated fork maps) + Spec judgement (versionSpec over the schedules of record)",
             "(*Aquahash).VerifySeal": "corr (vs Model.verifySeal, hash values from the real primitives) + Spec judgement (SealValid)",
-            "(*Aquahash).Seal / mine": "direct judgement on the real code (every returned seal passes the real VerifySeal and the model/Spec; tens of thousands of multi-threaded low-difficulty seals per run; -race in the thorough tier); mine's loop is modelled (mineFrom, one thread) and proved sound - the goroutines sharing nothing but the found/abort channels is NOT a theorem, it is exercised",
+            "(*Aquahash).Seal / mine": "direct judgement on the real code (every returned seal passes the real VerifySeal and the model/Spec; tens of thousands of multi-threaded low-difficulty seals per run; -race in the thorough tier); mine's loop is modelled (mineFrom, one thread) and proved sound; Seal with n threads is modelled as an interleaving system with PRIVATE seed buffers (sealStep/sealRun) and mined_seal_verifies_any_schedule holds for every schedule, shared_seed_buffer_witness shows it fails with one shared buffer - that the Go goroutines really own their buffers is what the seal-and-verify loop exercises and what the thorough tier's -race sub-run observes directly",
             "(*Header).Hash / HashNoNonce, (*Block).Hash / MinerHash / SetVersionConfig": "corr (vs Model.headerHash / hashNoNonce; RLP and Keccak-256 recomputed in Lean)"},
     "assumptions": ["argon2id (x/crypto/argon2), ethash hashimoto (light = full) and Keccak-256 are assumed; the theorems hold for every hash function",
                     "mined_seal_verifies presupposes that the block handed to Seal carries the version of its height (as miner.worker and Finalize set it): mine takes HashNoNonce before it sets header.Version",
@@ -36,7 +36,7 @@ CFG = {
 META = {
     "technique": "Lean 4 proofs (VerifySeal = the acceptance predicate for every hash function incl. non-positive difficulty, digest rule per version, exact target boundary; every nonce mine returns verifies; "
                  "version by height monotone with thresholds HF5/HF8/HF9; argon2id memory 1/16/32 KiB from regenerated facts) tied to consensus/aquahash, params, core/types by differential correspondence with real argon2id",
-    "text": "Theorems verifySeal_iff(_general), target_boundary, mined_seal_verifies, version_by_height, version_monotone, builtin_version_thresholds, memory_parameter, hash_uses_version, "
+    "text": "Theorems verifySeal_iff(_general), target_boundary, mined_seal_verifies, mined_seal_verifies_any_schedule, shared_seed_buffer_witness, version_by_height, version_monotone, builtin_version_thresholds, memory_parameter, hash_uses_version, "
             "hashNoNonce_by_version hold for all inputs of the Lean model; every run re-checks them against the regenerated constants/fork maps and runs the real VerifySeal/Seal/GetBlockVersion/"
             "Header.Hash on several thousand cases (targets straddling the real argon2id hash by one) which must agree with the model and the Spec.",
     "note": GEN,
